@@ -656,7 +656,14 @@ def coalesce_inlined_results(tree):
                         continue
                     first = order[min(occ_a)]
                     if not any(any(y is first for y in ast.walk(x)) for x in blk):
-                        continue
+                        # the copy sits in a nested block (e.g. under the `if` that guards the use): fine when the caller's variable is
+                        # not read after that block (inside it the two names denote the same value from the copy on)
+                        in_blk = {id(y) for x in blk for y in ast.walk(x)}
+                        later_b = [n for n in order if n.id == b and pos[id(n)] > k and id(n) not in in_blk]
+                        loops_around = any(isinstance(par, (ast.For, ast.While)) and any(y is st for y in ast.walk(par)) and any(n.id == b and id(n) not in in_blk for n in ast.walk(par) if isinstance(n, ast.Name))
+                                           for par in ast.walk(f))
+                        if later_b or loops_around:
+                            continue
                     for n in order:
                         if n.id == a:
                             n.id = b
